@@ -21,7 +21,7 @@ open Wr
       t m=S tg=S sc=S sn=S sp=N cl=-|S:N rp=S fw=0|1 hs=-|S:S;…  lib=<6 chars> o=<3 chars>
           the request TARGET and the connection attributes (model `Wq`, FalconModel/WirePath.lean): method, raw request-target
           (bytes as code points < 256), scheme, server name / port, client address:port or `-`, mount point, field lines;
-          lib = omitScriptName omitQueryString omitRootPath omitScheme clientNull (0|1 each) + server key g|m|n (given / missing /
+          lib = omitScriptName omitQueryString omitRootPath omitScheme clientNull (an unknown client sent as None; 0|1 each) + server key g|m|n (given / missing /
           None); o = strip_url_path_trailing_slash keep_blank_qs_values auto_parse_qs_csv (0|1 each).  Reply:
             W <method> <path> <query_string> <params> <root_path> <scheme> <host> <port> <netloc> <remote_addr> <access_route>
             A … the same eleven for falcon.asgi.Request, or `A CTOR` when its constructor raises (query_string not UTF-8)
